@@ -10,6 +10,18 @@ BASELINE = ("cd /repo && /venv/bin/python -m pytest -ra -q -p no:cacheprovider -
 
 # id -> (category, technique, level text, level note, design ref)
 CHECKS = {
+    "C19": ("exploration",
+            "Hypothesis-generated histories of default / custom validations, object creation, cardinality "
+            "changes and saves/loads; unchanged-snapshot, repeatability (incl. subprocess differential with "
+            "another hash seed) and registry-snapshot oracles",
+            "Documents (also deliberately invalid ones) go through generated histories of every validation "
+            "entry point; every validation must leave an identity snapshot of the validated objects unchanged, "
+            "repeated default validations and a validation of the same file in a child process with another "
+            "PYTHONHASHSEED must report the same multiset of issues, the class-level registry of default rules "
+            "must equal its import-time snapshot after every step and a marker rule registered on a reset=True "
+            "instance must fire there and nowhere else.",
+            "Custom rules only via reset=True instances; issue collections compared as multisets.",
+            "DESIGN.md section 5, C19"),
     "C20": ("exploration",
             "Hypothesis-generated document sets and queries (hits and misses, string and dict form, match and "
             "fuzzy mode); differential against an independent evaluation of every combination on the source "
